@@ -61,6 +61,8 @@ def full_point(lp):
 def check_const(case):
     lp = full_point(case['lp'])
     cfg = c02.expand(lp, case['seed'])
+    if c02.invalid_geometry(cfg):
+        return dict(fails=[], execs=0, nontrivial=0)
     tri = TRIPLES[lp['triple']]
     fails = []
     p = pan.make_panel(cfg)
